@@ -444,9 +444,9 @@ PartialAddrDelta(m) ==
                     ELSE IF Outs(ops[i].t)[ops[i].i].a > 0 THEN 1 ELSE 0])
 
 MetricsChecks(m) ==
-  IF R.path # "/metrics"
+  IF R.ans.k # "ok" THEN << <<"metrics.answer", "ok", R.ans.k>> >>
+  ELSE IF R.path # "/metrics"
   THEN << <<"metrics.notFound", 404, R.ans.status>>, <<"metrics.notFoundHeaders", 0, R.ans.nheaders>> >>
-  ELSE IF R.ans.k # "ok" THEN << <<"metrics.answer", "ok", R.ans.k>> >>
   ELSE
   LET g   == R.ans.g
       L   == LedgerAt(StableTop(m))
